@@ -1002,9 +1002,28 @@ func (e *Engine) extError(name string) Value {
 	if v, ok := e.extErrs[name]; ok {
 		return v
 	}
-	v := e.newErrorString(name)
+	msg := name
+	if m, ok := stdErrorText[name]; ok {
+		msg = m
+	}
+	v := e.newErrorString(msg)
 	e.extErrs[name] = v
 	return v
+}
+
+// stdErrorText: the messages of well-known sentinel errors of packages whose
+// initialisers are not executed (the values are distinct objects either way).
+var stdErrorText = map[string]string{
+	"context.Canceled":         "context canceled",
+	"io.EOF":                   "EOF",
+	"io.ErrUnexpectedEOF":      "unexpected EOF",
+	"io.ErrClosedPipe":         "io: read/write on closed pipe",
+	"database/sql.ErrNoRows":   "sql: no rows in result set",
+	"database/sql.ErrTxDone":   "sql: transaction has already been committed or rolled back",
+	"database/sql.ErrConnDone": "sql: connection is already closed",
+	"io/fs.ErrNotExist":        "file does not exist",
+	"strconv.ErrSyntax":        "invalid syntax",
+	"strconv.ErrRange":         "value out of range",
 }
 
 func (e *Engine) newErrorString(msg string) Value {
